@@ -51,7 +51,11 @@ def check_exact_case(rec) -> list[str]:
     p, mu, z = _table_of(rec)
     bad = []
     for name, a in (("m", 0), ("from2", 1), ("from3", 2)):
-        got = np.asarray(pseudopressure(p[a:], mu[a:], z[a:]), dtype=float)
+        try:
+            got = np.asarray(pseudopressure(p[a:], mu[a:], z[a:]), dtype=float)
+        except Exception as ex:  # noqa: BLE001  the transform raising on a positive table is an observation
+            bad.append(f"{name}: raised {type(ex).__name__}: {ex}")
+            continue
         want = rec[name]
         if got.shape != (len(want),):
             bad.append(f"{name}: shape {got.shape}, expected {len(want)} rows")
@@ -243,7 +247,15 @@ def alone_sweep(tab):
 
 
 def _run_task(task):
-    return gas_sweeps(task[1]) if task[0] == "gas" else alone_sweep(task[1])
+    # a route that raises on an admissible table / gas is an observation about the code, not a failure of the harness
+    try:
+        return gas_sweeps(task[1]) if task[0] == "gas" else alone_sweep(task[1])
+    except tlc.MachineryError:
+        raise
+    except Exception as ex:  # noqa: BLE001
+        import traceback  # noqa: PLC0415
+
+        return f"{type(ex).__name__}: {ex} [{traceback.format_exc().strip().splitlines()[-3].strip()[:160]}]"
 
 
 def compositions(ctx: core.Ctx):
@@ -272,6 +284,13 @@ def run_sweeps(ctx: core.Ctx, tasks) -> None:
     log = sweep.SweepLog()
     with ProcessPoolExecutor(max_workers=16) as ex:
         for task, results in zip(tasks, ex.map(_run_task, tasks)):
+            if isinstance(results, str):
+                what = f"gas {task[1]}" if task[0] == "gas" else f"table with {len(task[1][0])} rows"
+                ctx.violation("Raises", f"{what}: a pseudopressure route raised {results}",
+                              replay={"stage": "sweep", "meta": {"profile": "table" if task[0] == "gas" else "alone",
+                                                                  "comp": list(task[1]) if task[0] == "gas" else None,
+                                                                  "table": [np.asarray(a).tolist() for a in task[1][:3]] if task[0] != "gas" else None}})
+                continue
             for res in results:
                 log.begin(res["profile"], res["meta"])
                 for pt in res["points"]:
